@@ -115,6 +115,40 @@ UNITS = [Unit('copier', 'C04', C, extracts=X_ALL, replay=REPLAY,
               assumed=['iterator_from_2d += k follows the advance contract of C03', 'detail::copy_n on raw iterators copies k consecutive pixels (std::copy / memmove)',
                        'iterator_from_2d::x() is the raw x-iterator at the current position, valid up to the end of its row'])]
 # ---------------------------------------------------------------------------------------------------------------------------------------
+# detail::copy_with_2d_iterators (what copy_pixels / std::copy over view iterators run): picks one of the four copier_n forms.
+# Contract: exactly one copier call for n = last - first pixels; a side is handed over as a raw x-iterator (no row structure) only when
+# that side reported is_1d_traversable(); the copier's type parameters match the arguments; the result is dst + n.
+import re as _re
+def _copier_call(body):
+    def rep(m):
+        ts, td, a, b = m.group(1).strip(), m.group(2).strip(), m.group(3).strip(), m.group(4).strip()
+        return 'USE_COPIER(%d, %d, %d, %d, n);' % (ts == 'src_x_iterator', a == 'first.x()', td == 'dst_x_iterator', b == 'dst.x()')
+    return _re.subn(r'copier_n<\s*(\w+)\s*,\s*(\w+)\s*>\(\)\(\s*(first(?:\.x\(\))?)\s*,\s*n\s*,\s*(dst(?:\.x\(\))?)\s*\);', rep, body)
+X_CW = [X('copy_with_2d', AL, r'BOOST_FORCEINLINE auto copy_with_2d_iterators\(SrcIterator first, SrcIterator last, DstIterator dst\) -> DstIterator \{', count=1,
+          rules=[('R11.copier_call', _copier_call, None, True),
+                 ('R2.using', r'using \w+ = typename \w+::x_iterator;', '', False),
+                 ('R2.diff', r'typename SrcIterator::difference_type n', 'ptrdiff_t n', False),
+                 ('R11.src1d', r'\bfirst\.is_1d_traversable\(\)', 'g_src1d', True), ('R11.dst1d', r'\bdst\.is_1d_traversable\(\)', 'g_dst1d', True)])]
+CW_C = r"""
+_Bool g_src1d, g_dst1d; int g_calls; _Bool g_src_raw, g_dst_raw, g_types_ok; ptrdiff_t g_n;
+static void USE_COPIER(int tsrc_raw, int asrc_raw, int tdst_raw, int adst_raw, ptrdiff_t n) {
+  g_calls = g_calls + 1; g_src_raw = asrc_raw; g_dst_raw = adst_raw; g_types_ok = (tsrc_raw == asrc_raw) && (tdst_raw == adst_raw); g_n = n; }
+ptrdiff_t copy_with_2d(ptrdiff_t first, ptrdiff_t last, ptrdiff_t dst)
+__CPROVER_requires(-((ptrdiff_t)1 << 40) <= first && first <= last && last <= ((ptrdiff_t)1 << 40) && -((ptrdiff_t)1 << 40) <= dst && dst <= ((ptrdiff_t)1 << 40) && g_calls == 0)
+__CPROVER_assigns(g_calls, g_src_raw, g_dst_raw, g_types_ok, g_n)
+__CPROVER_ensures(g_calls == 1 && g_n == last - first)                 /* one copier run over exactly the pixels of [first, last) */
+__CPROVER_ensures(g_types_ok)                                           /* copier_n<A,B> instantiated for the iterator kinds it is given */
+__CPROVER_ensures(!g_src_raw || g_src1d)                                /* the source is walked as one raw run only when it is 1-D traversable */
+__CPROVER_ensures(!g_dst_raw || g_dst1d)                                /* the destination is written as one raw run only when it is 1-D traversable */
+__CPROVER_ensures(__CPROVER_return_value == dst + (last - first))
+@@copy_with_2d@@
+#ifndef VERIF_NATIVE
+void h_cw(void){ ptrdiff_t a, b, d; copy_with_2d(a, b, d); __CPROVER_assert(0, "VACUITY"); }
+#endif
+"""
+UNITS.append(Unit('copy_dispatch', 'C04', CW_C, extracts=X_CW, replay=REPLAY, checks=[Check('dispatch', 'h_cw', enforce='copy_with_2d')],
+                  assumed=['the four copier_n forms meet the contracts of unit copier', 'is_1d_traversable() of iterator_from_2d forwards to the locator predicate (C03)']))
+# ---------------------------------------------------------------------------------------------------------------------------------------
 # detail::fill_aux for planar iterators: one std::fill per plane, the planes paired with the fill value's channels BY COLOUR
 X_FA = [X('fill_aux_planar', AL, r'void fill_aux\(It first, It last, P const& p, std::true_type\)\s*\{', count=1,
           rules=[('R11.static_for_each', r'static_for_each\(first, last, p, std_fill_t\(\)\);', 'STATIC_FOR_EACH_FILL(first, last, p);', True)])]
